@@ -377,6 +377,87 @@ func leapDayRuns() []*run {
 	return out
 }
 
+// ---------- fields written out in full: ranges, steps of one, lists covering every value ----------
+
+// fullRangeRuns: for every field, every way of writing "all values" without a star (lo-hi by number and by name,
+// lo-hi/1, lo/1, a list whose union is the whole field), alone and - for the two day fields - next to a restricted
+// other day field, where it decides between "either day field matches" and "both must match": only a literal * or ?
+// makes a day field unrestricted.  Parsed and walked three steps from fixed instants.
+func fullRangeRuns() []*run {
+	full := map[int][]string{
+		1: {"0-59", "0-59/1", "0/1", "0-29,30-59", "00-59"},
+		2: {"0-59", "0-59/1", "0/1", "0-30,31-59,15"},
+		3: {"0-23", "0-23/1", "0/1", "0-11,12-23", "12-23,0-11"},
+		4: {"1-31", "1-31/1", "1/1", "1-15,16-31", "01-31", "1-30,31", "2-31,1"},
+		5: {"1-12", "jan-dec", "JAN-12", "1-12/1", "1/1", "jan/1", "1-6,jul-dec"},
+		6: {"0-6", "sun-sat", "SUN-6", "0-6/1", "0/1", "sun/1", "0-3,thu-sat", "mon-sat,0"},
+	}
+	otherDay := map[int][]string{4: {"sun", "1", "mon-fri", "2/3", "*/2", "*", "?"}, 6: {"1", "15", "13,31", "*/10", "29-31", "*", "?"}}
+	zones := []string{"UTC", "America/New_York", "Europe/Berlin", "Asia/Kolkata"}
+	froms := []string{"2024-02-27T23:59:30", "2025-05-31T12:00:00", "2031-12-30T06:30:15"}
+	var out []*run
+	i := 0
+	add := func(fields []string) {
+		i++
+		zone := zones[i%len(zones)]
+		loc := mustLoad(zone)
+		st, _ := time.ParseInLocation("2006-01-02T15:04:05", froms[i%len(froms)], loc)
+		sp := strings.Join(fields, " ")
+		if i%3 == 0 && fields[0] == "0" { // a third of them as standard five-field expressions
+			sp = strings.Join(fields[1:], " ")
+		}
+		r := &run{Zone: zone, Steps: 3, Mode: "fullrange", Start: st, X: parseStaged(sp, zone)}
+		if len(r.X.Fields) == 5 {
+			r.X.Places = placeSets[0]
+		}
+		switch i % 4 {
+		case 0:
+			r.X.TZ, r.X.TZKnown, r.X.Prefix = "", false, ""
+			r.Carry = "zone"
+		case 1:
+			r.X.Prefix = "CRON_TZ="
+			r.Carry = "UTC"
+		default:
+			r.Carry = "same"
+		}
+		out = append(out, r)
+	}
+	base := []string{"0", "0", "0", "*", "*", "*"}
+	for f := 1; f <= 6; f++ {
+		for _, v := range full[f] {
+			fs := append([]string{}, base...)
+			fs[f-1] = v
+			if f == 1 {
+				fs[1] = "30"
+			}
+			add(fs)
+		}
+	}
+	for _, f := range []int{4, 6} {
+		g := 10 - f // the other day field
+		for _, v := range full[f] {
+			for _, o := range otherDay[f] {
+				fs := append([]string{}, base...)
+				fs[f-1], fs[g-1] = v, o
+				add(fs)
+				if o == "*" || o == "?" {
+					continue
+				}
+				fs2 := append([]string{}, fs...)
+				fs2[2], fs2[4] = "6,18", full[5][(i+f)%len(full[5])] // with a full-range month and two hours
+				add(fs2)
+			}
+		}
+		// both day fields written out in full
+		for _, v := range full[f] {
+			fs := append([]string{}, base...)
+			fs[f-1], fs[g-1] = v, full[g][i%len(full[g])]
+			add(fs)
+		}
+	}
+	return out
+}
+
 // ---------- deterministic sweep around the transitions of a zone ----------
 
 func uniq(xs []string) []string {
@@ -1031,6 +1112,14 @@ func TestCheck(t *testing.T) {
 		e.Nontrivial(r.Text + "|" + r.Zone + "|" + strconv.FormatInt(r.Start.Unix(), 10))
 	}
 	e.Set("leap_day_runs", int64(len(leap)))
+	fr := fullRangeRuns()
+	for _, r := range fr {
+		r.execute()
+		runs = append(runs, r)
+		nextCalls += len(r.Nexts)
+		e.Nontrivial(r.Text + "|" + r.Zone + "|" + strconv.FormatInt(r.Start.Unix(), 10))
+	}
+	e.Set("full_range_runs", int64(len(fr)))
 	e.Set("sweep_runs", int64(sweepN))
 	e.Set("staged_cases", int64(len(stagedCases)))
 	e.Set("runs", int64(len(runs)))
@@ -1062,7 +1151,7 @@ func TestCheck(t *testing.T) {
 	}
 	e.Set("traces_validated_against_impl", int64(len(all)))
 	e.Set("evaluations", int64(nextCalls+len(runs)+len(termRuns)))
-	e.Set("rule", "a run = one expression (AST drawn from the field grammar: every term form for every field, lists <= 3, names, ?, descriptors, @every; or one planted defect of each refusal class) x parser option set x TZ=/CRON_TZ= prefix or process-local zone x zone (fixed, whole-hour DST both hemispheres, midnight transitions, 30/45-minute offsets, 30-minute DST, skipped day) x start instant (within 3 h of a transition 2010-2035, calendar corners, random; 9% of the runs in 2096-2104 / 2196-2204 around the century years without 29 February) carried in another Location, walked 1-20 Next steps; plus, without randomness: staged cases (five-year horizon, century years, fixed defect reproducers), leap-day / impossible-date expressions (5 and 6 fields, TZ= / CRON_TZ= / no prefix) from the years before 1900, 2100, 2200 and around ordinary leap years, a sweep of expressions aimed at the transitions of the zones with midnight / off-hour / 30-minute / day-skipping changes (quick: 1 in 29 of the family, thorough: all; the seeded walks use the other zones), and every single term of every field enumerated by TLC; each Parse and each Next call is one evaluation judged by TLC; non-trivial = a run with at least one Next call, or an enumerated term; distinct by expression text, zone and start instant")
+	e.Set("rule", "a run = one expression (AST drawn from the field grammar: every term form for every field, lists <= 3, names, ?, descriptors, @every; or one planted defect of each refusal class) x parser option set x TZ=/CRON_TZ= prefix or process-local zone x zone (fixed, whole-hour DST both hemispheres, midnight transitions, 30/45-minute offsets, 30-minute DST, skipped day) x start instant (within 3 h of a transition 2010-2035, calendar corners, random; 9% of the runs in 2096-2104 / 2196-2204 around the century years without 29 February) carried in another Location, walked 1-20 Next steps; plus, without randomness: staged cases (five-year horizon, century years, fixed defect reproducers), fields written out in full without a star (lo-hi, names, /1, covering lists) alone and next to a restricted other day field, leap-day / impossible-date expressions (5 and 6 fields, TZ= / CRON_TZ= / no prefix) from the years before 1900, 2100, 2200 and around ordinary leap years, a sweep of expressions aimed at the transitions of the zones with midnight / off-hour / 30-minute / day-skipping changes (quick: 1 in 29 of the family, thorough: all; the seeded walks use the other zones), and every single term of every field enumerated by TLC; each Parse and each Next call is one evaluation judged by TLC; non-trivial = a run with at least one Next call, or an enumerated term; distinct by expression text, zone and start instant")
 	rejected := map[*run]bool{}
 	calendarMismatch := 0
 	sort.Slice(rej, func(i, j int) bool { return rej[i].run.Text+rej[i].run.Zone < rej[j].run.Text+rej[j].run.Zone })
@@ -1149,7 +1238,7 @@ func TestCheck(t *testing.T) {
 	e.Assume("tzdata is trusted: the zone tables handed to TLC are read from the Go runtime's time.ZoneBounds/Zone (the code under test uses time.Date/Add/In)",
 		"the duration syntax of '@every d' is time.ParseDuration's; the harness hands d (whole seconds) to the spec",
 		"expressions outside the documented grammar (e.g. '*-5', '+5', empty list items, '?' outside the day fields) are not generated; a schedule without TZ= prefix is read in the zone of the instant handed to Next (spec.go: 'treated as local to the time provided'; this is how cron.WithLocation takes effect)",
-		"either-day rule: a day field is 'restricted' when it has no star and excludes some value; for a star inside a list, '*/1' or a star-free full range both readings are accepted",
+		"either-day rule: only a literal * or ? makes a day field unrestricted (a full range written with numbers or names, 1-31 or sun-sat, is restricted); for a star inside a list and for '*/1' both readings are accepted",
 		"'none within five years': a match whose wall-clock reading is at most five calendar years after that of t (by the wall clock of the schedule's zone) must be returned; if the first match is later, it or the zero time is accepted",
 		"instants are handed to TLC relative to 1 January of the run's epoch year (32-bit integers); the calendar arithmetic is absolute, so any century is judged (runs around 2096-2104 and 2196-2204 are generated)")
 }
